@@ -160,8 +160,8 @@ pub fn random_layout(t: &mut Tape) -> Layout {
     let mut struct_defined = false;
     let mut name_pool_idx = 0usize;
     // ordinary names interleaved with shapes whose wrapper identifier differs from the name Tauri
-    // registers (raw identifiers keep their `r#` in `stringify!`, underscores survive)
-    let names = ["get_user", "r#type", "save", "list_items", "_ping", "do_work2", "fetch_all_the_things", "r#move", "x", "open_file_", "a__b", "run_task", "compute", "reset_state", "load_v2", "sync_now", "q1", "export_data_set"];
+    // registers (raw identifiers keep their `r#` in `stringify!`, underscores survive) and with pairs that differ only in underscores (`_ping` / `ping`, `a__b` / `a_b`): distinct commands for Tauri, one camelCase identifier
+    let names = ["get_user", "r#type", "save", "list_items", "_ping", "do_work2", "fetch_all_the_things", "r#move", "x", "open_file_", "a__b", "ping", "run_task", "a_b", "compute", "reset_state", "load_v2", "sync_now", "q1", "export_data_set"];
     let mut fresh_name = |prefix: &str| {
         name_pool_idx += 1;
         format!("{}{}", prefix, name_pool_idx)
@@ -349,6 +349,16 @@ pub fn check_layout(l: &Layout, mode: &str, via_cli: bool, stats: &mut Stats) ->
         Ok(o) => o,
         Err(f) => return vec![f.tags(tags(&[])).case(case)],
     };
+    // "exactly one wrapper per command": two exported functions of one name are one binding
+    {
+        let mut seen = std::collections::BTreeMap::new();
+        for (fname, name, _) in &observed {
+            if let Some(first) = seen.insert(fname.clone(), name.clone()) {
+                fails.push(Failure::new("duplicate_wrapper_identifier").tags(tags(&[])).observed(format!("`export async function {}` is declared for '{}' and again for '{}'", fname, first, name)).expected("one uniquely named wrapper per command").case(case.clone()));
+                return fails;
+            }
+        }
+    }
     let mut obs_names: Vec<String> = observed.iter().map(|(_, n, _)| n.clone()).collect();
     obs_names.sort();
     let exp_names: Vec<String> = expected.keys().cloned().collect();
@@ -413,6 +423,18 @@ pub fn run(ctx: &Ctx) {
 }
 
 pub fn replay(check: &str, input: &Value, stats: &mut Stats) -> Option<Vec<Failure>> {
+    if check == "c03.names" {
+        // explicit: one file with one plain command per given name
+        let items: Vec<ItemM> = input["names"]
+            .as_array()?
+            .iter()
+            .filter_map(|n| n.as_str())
+            .map(|n| ItemM::Command { name: n.to_string(), attr: "#[tauri::command]".into(), extra_before: vec![], extra_after: vec![], vis: "pub ".into(), is_async: false, ret: Some(Ty::Prim("i32")), with_param: true })
+            .collect();
+        let l = Layout { files: vec![FileM::Rust { path: "src/lib.rs".into(), items }] };
+        let mode = if input["mode"].as_str() == Some("zod") { "zod" } else { "none" };
+        return Some(check_layout(&l, mode, false, stats));
+    }
     let mut tape = Tape::new(super::tape_of(input));
     let (l, mode) = random_case(&mut tape);
     match check {
